@@ -36,4 +36,5 @@ SCRIPT_ASSUMPTIONS = [
     'reference semantics vlib/refsem.py is the oracle for what the source says; rounded fields must be integers within 1/2 of the exact clamped value',
     'numeric literals travel through the compiler as sentinel integers and are replaced by symbolic values in the compiled Instruction operands (numeral parsing is covered by C16)',
     'symbolic values range over the interior of the documented register ranges (edges: C07)',
+    'time and duration literals are 0 or at least 1/1000 of their unit (units.py snaps raw times below 2**-17 ms to 0; a shorter wait and no wait are the same nearest-millisecond setting)',
 ]
